@@ -5,7 +5,7 @@ import ast
 from typing import Dict, List, Optional, Tuple
 
 from ..astutil import arg_or_kw, body_walk, const_str, dotted, kwarg, norm, positional_params, short, walk_local
-from ..common import check_width_carried, circuit_ctor_calls, ops_expr, returned_exprs, width_expr
+from ..common import exit_exprs, check_width_carried, circuit_ctor_calls, ops_expr, returned_exprs, width_expr
 from ..flow import Defs
 from ..gatetable import gate_table
 from ..lints import iterator_reuse_sites, self_check_iterator_reuse
@@ -314,7 +314,7 @@ def run(ctx):
     ctx.check(len(table) >= 27 and not bad, R4, "circuits._builtin_gates:names", f"{len(table)} built-in gates, name == identifier", f"built-in gate(s) whose name differs from the identifier it is looked up by: {[(g.ident, g.name) for g in bad]} (serialised under the name, looked up by identifier)", repo.module("circuits._builtin_gates").relpath + ":1")
     lookup = repo.func("circuits._builtin_gates:builtin_gate_by_name")
     lp = positional_params(lookup.node)[0]
-    lrets = returned_exprs(lookup.node)
+    lrets = exit_exprs(lookup.node)
     ok_lookup = any(isinstance(r, ast.Subscript) and norm(r.value) == "globals()" and norm(r.slice) == lp for r in lrets)
     ctx.check(ok_lookup, R4, lookup.key, "lookup is globals()[name]", "built-in lookup is no longer by module-level identifier", lookup)
     # ... by the *exact* name, on every exit: the reader tries the built-in lookup first, so a lookup that also accepts other
